@@ -16,7 +16,7 @@ pub fn def() -> CheckDef {
         meta: CheckMeta {
             id: "C11",
             level: "fault_enumeration",
-            rule: "generated histories (1 in 4 with a free list spanning several pages) run in a worker process under the LD_PRELOAD shim; for a chosen target commit a dry run counts the I/O calls the commit issues on the database descriptor (every lseek, write, fsync), then one worker per fault is run with that call failing: EIO and ENOSPC for every call, plus for writes 'short write then error' (1, 100, 512 bytes transferred), plus a file-size limit (RLIMIT_FSIZE = current size, SIGXFSZ ignored) so that file extension and writes beyond the limit fail. Oracle in the worker: the faulted commit returns Err (a panic or abort is a failure); immediately afterwards, on the same handle, a reader sees exactly the pre- or the post-transaction state; the independent parser finds the file sound and equal to that state; DB::check passes; 3-6 further generated transactions on the same handle commit and match the model continued from the observed state with every commit verified; after reopen the same. Single faults are enumerated exhaustively per target commit; pairs are sampled: a first fault in the target commit and a second one (re-armed) in one of the next three commits on the same handle, each faulted commit judged the same way. Non-trivial = fault that fired after at least one write of the commit had succeeded. Distinct = (history, target, fault).",
+            rule: "generated histories (1 in 4 with a free list spanning several pages) run in a worker process under the LD_PRELOAD shim; for a chosen target commit a dry run counts the I/O calls the commit issues on the database descriptor (every lseek, write, fsync), then one worker per fault is run with that call failing: EIO and ENOSPC for every call, plus for writes 'short write then error' (1, 100, 512 bytes transferred), plus a file-size limit (RLIMIT_FSIZE = current size, SIGXFSZ ignored) so that file extension and writes beyond the limit fail. Oracle in the worker: the faulted commit returns Err (a panic or abort is a failure); immediately afterwards, on the same handle, a reader sees exactly the pre- or the post-transaction state; the independent parser finds the file sound and equal to that state; DB::check passes; 3-6 further generated transactions on the same handle commit and match the model continued from the observed state with every commit verified; after reopen the same. Single faults are enumerated exhaustively per target commit; pairs are sampled: a first fault in the target commit and a second one (re-armed) in one of the next three commits on the same handle, each faulted commit judged the same way; plus structured pairs on the two header writes (torn inside the record, torn behind it, failing outright). Non-trivial = fault that fired after at least one write of the commit had succeeded. Distinct = (history, target, fault).",
             assumptions: &[
                 "faults are injected at the libc boundary (write, lseek64, fsync); fallocate is a raw syscall and is made to fail through RLIMIT_FSIZE instead",
                 "a fault makes that one call fail; the file system otherwise behaves (what was written before the fault stays written)",
@@ -442,9 +442,30 @@ fn shard(ctx: &ShardCtx, known: &Known) -> ShardOut {
                     let f1 = faults[prng.below(faults.len() as u64) as usize].clone();
                     let (t2, c2) = &later_calls[prng.below(later_calls.len() as u64) as usize];
                     let i2 = prng.below(c2.len() as u64) as usize;
-                    let short = if c2[i2].0 == 1 && c2[i2].1 > 512 && prng.chance(1, 4) { Some(512u32) } else { None };
+                    let short = if c2[i2].0 == 1 && prng.chance(1, 2) {
+                        let k = [1u32, 100, 512][prng.below(3) as usize];
+                        if (k as usize) < c2[i2].1 { Some(k) } else { None }
+                    } else {
+                        None
+                    };
                     let f2 = Fault::Nth { n: (i2 + 1) as u32, errno: if prng.chance(1, 2) { libc::EIO } else { libc::ENOSPC }, short };
                     cases.push((f1, Some((*t2, f2))));
+                }
+            }
+            // structured pairs on the header writes (the last write call of each commit): torn
+            // inside the record (100 bytes: past the transaction id, short of the checksum), torn
+            // behind it (512), or failing outright, in both commits
+            let last_write = |c: &Vec<(u32, usize)>| c.iter().rposition(|(k, _)| *k == 1);
+            if let Some(h1) = last_write(&calls) {
+                for (t2, c2) in &later_calls {
+                    if let Some(h2) = last_write(c2) {
+                        for (s1, s2) in [(Some(100u32), Some(100u32)), (Some(100), None), (Some(100), Some(512)), (Some(512), Some(100)), (None, Some(100))] {
+                            cases.push((
+                                Fault::Nth { n: (h1 + 1) as u32, errno: libc::EIO, short: s1 },
+                                Some((*t2, Fault::Nth { n: (h2 + 1) as u32, errno: libc::EIO, short: s2 })),
+                            ));
+                        }
+                    }
                 }
             }
             for (fault, second) in cases {
